@@ -170,20 +170,37 @@ func runC05(rc *RunCtx) {
 	results := make([]c05Result, len(reqs))
 	var panics []PanicRec
 	s.Go("poller", false, func(tk *Task) {
+		// One client per server address, kept for the whole poll cycle; all responses are collected first and the
+		// fields are extracted afterwards (a response must stay valid while its client goes on to other requests).
+		// Devices that cut answers short also close the connection, so those runs dial per request.
+		clients := map[string]*modbus.Client{}
 		for i := range reqs {
 			r := &results[i]
 			r.req = reqs[i]
-			cl := netClient(dn, fr, 100*time.Millisecond)
-			if err := cl.Connect(context.Background(), reqs[i].ServerAddress); err != nil {
-				r.doErr = err
-				continue
+			cl := clients[reqs[i].ServerAddress]
+			if cl == nil || shortRate == 1 {
+				cl = netClient(dn, fr, 100*time.Millisecond)
+				if err := cl.Connect(context.Background(), reqs[i].ServerAddress); err != nil {
+					r.doErr = err
+					continue
+				}
+				clients[reqs[i].ServerAddress] = cl
 			}
 			r.resp, r.doErr = cl.Do(context.Background(), reqs[i].Request)
-			cl.Close()
-			if r.doErr != nil {
-				continue
+			if shortRate == 1 {
+				cl.Close()
 			}
-			r.values, r.exErr = reqs[i].ExtractFields(r.resp, lenient)
+		}
+		for i := range reqs {
+			r := &results[i]
+			if r.doErr == nil {
+				r.values, r.exErr = reqs[i].ExtractFields(r.resp, lenient)
+			}
+		}
+		for _, addr := range servers {
+			if cl := clients[addr]; cl != nil && shortRate != 1 {
+				cl.Close()
+			}
 		}
 	})
 	s.Run()
